@@ -51,6 +51,19 @@ def bad (cmds impl : List String) (kind : String) : Bool := (judge cmds impl).an
 #guard bad ["sond 61 0 612e6f"] ["so 0 made=1 tmp=612e6f2e746d70 left=1"] "tmp-left-behind after-rename-failure"
 #guard bad ["sond 61 0 612e6f"] ["so 1 made=1 tmp=612e6f2e746d70 left=0"] "save-reported-success-although-rename-failed"
 
+/-! restore into ANOTHER program (version): matching by name -/
+def verCmds := ["prog u v:n:a v:n:b", "prog w v:n:b v:s:a v:n:c", "useg u", "setm a[i5,i6]", "so 0", "useg w", "setm a[i1,i2,i3]"]
+#guard ok (verCmds ++ ["ro 1"]) ["so 1", "file 232f672f752e630a6120350a6220360a", "ro 1", "vars a[i6,i2,i3]"]
+#guard ok (verCmds ++ ["ro 0"]) ["so 1", "file 232f672f752e630a6120350a6220360a", "ro 1", "vars a[i6,i2,i0]"]
+#guard bad (verCmds ++ ["ro 1"]) ["so 1", "file 232f672f752e630a6120350a6220360a", "ro 1", "vars a[i1,i2,i3]"] "roundtrip-value-differs b"          -- b not taken from the file
+#guard bad (verCmds ++ ["ro 1"]) ["so 1", "file 232f672f752e630a6120350a6220360a", "ro 1", "vars a[i6,i5,i3]"] "static-variable-changed-by-restore a" -- a is static now
+#guard bad (verCmds ++ ["ro 1"]) ["so 1", "file 232f672f752e630a6120350a6220360a", "ro 1", "vars a[i6,i2,i0]"] "roundtrip-value-differs c"          -- cleared despite no-clear
+#guard bad (verCmds ++ ["ro 0"]) ["so 1", "file 232f672f752e630a6120350a6220360a", "ro 1", "vars a[i6,i2,i3]"] "roundtrip-value-differs c"          -- not cleared
+
+-- same names, other static flags: still another program
+#guard ok ["prog u v:s:a v:n:b", "prog w v:n:a v:s:b", "useg u", "setm a[i5,i6]", "so 0", "useg w", "setm a[i1,i2]", "ro 1"] ["so 1", "file 232f672f752e630a6220360a", "ro 1", "vars a[i1,i2]"]
+#guard bad ["prog u v:s:a v:n:b", "prog w v:n:a v:s:b", "useg u", "setm a[i5,i6]", "so 0", "useg w", "setm a[i1,i2]", "ro 1"] ["so 1", "file 232f672f752e630a6220360a", "ro 1", "vars a[i5,i2]"] "roundtrip-value-differs a"
+
 /-! memory -/
 #guard bad ["rv 22"] ["sanitizer ERROR: AddressSanitizer: heap-buffer-overflow"] "memory"
 #guard bad ["rv 22"] ["crash signal 11"] "memory"
